@@ -10,8 +10,8 @@
 (***************************************************************************)
 EXTENDS ZincWrite, Json, ZwCat
 
-Alphabet == <<34, 92, 44, 10, 32, 91, 93, 123, 125, 60, 62, 40, 41, 58, 64, 96, 78, 49, 97, 13, 36, 117>>
-\*            "   \   ,   NL  SP  [   ]   {    }    <   >   (   )   :   @   `   N   1   a   CR  $   u
+Alphabet == <<34, 92, 44, 10, 32, 91, 93, 123, 125, 60, 62, 40, 41, 58, 64, 96, 78, 49, 97, 13, 36, 117, 65>>
+\*            "   \   ,   NL  SP  [   ]   {    }    <   >   (   )   :   @   `   N   1   a   CR  $   u    A
 
 Seed(di, si) == SpellDoc(Docs[di], IF si = 0 THEN DefaultStyle ELSE ExtraStyles[si])
 
